@@ -323,7 +323,7 @@ prop("C15", level="fault_enumeration",
      level_text=("Response operations (blocks incl. > 512 KiB to force message splits, extension data, statuses, 1-4 requests per peer, first send held so "
                  "that later messages queue up) are queued through the real responseassembler/peermanager/messagequeue; faults are placed at send index j "
                  "(once / until retries are exhausted), at connect, at sender creation, or as a disconnect. At the idle point every peer's accounted memory "
-                 "(real allocator and ledger) must be zero, no release may exceed what was reserved, and block bytes on the wire never exceed bytes reserved."),
+                 "(real allocator and ledger) must be zero, no release may exceed what was reserved, and block bytes on the wire never exceed bytes reserved. A third of the cases run with a per-peer allowance of 4-16 KiB so that transactions wait for memory while earlier messages are held, sent or failed; a producer still waiting for memory at sustained quiescence is a violation of its own."),
      level_note="Data queued into a queue that is already shutting down is a recorded known finding (shared with C16).",
      rule=("One evaluation = one (operation plan, fault kind, fault position, retries, hold) scenario. Non-trivial = executed to an idle point and "
            "decided; distinct by scenario; distinct_sets.fault_kinds lists the fault kinds hit."),
